@@ -223,6 +223,9 @@ func init() {
 		if k := i - ctx.N(12, 90) - ctx.N(8, 32) - 57; k >= 0 && k < 8 {
 			return oddRequiredNameCase(k)
 		}
+		if k := i - ctx.N(12, 90) - ctx.N(8, 32) - 65; k >= 0 && k < 12 {
+			return mixinBranchCase(k)
+		}
 		return nil
 	}
 	regSem(&semSpec{id: "C03",
@@ -2015,6 +2018,7 @@ func strataForC01(ctx *Ctx) []*sem.Case {
 	add(10, formatEnumCase)
 	add(8, oddRequiredNameCase)
 	add(6, selfRefTwinCase)
+	add(12, mixinBranchCase)
 	add(12, objectDefaultCase)
 	add(12, nullableDefCase)
 	add(16, nestedOverlapCase)
@@ -2338,6 +2342,62 @@ func oddRequiredNameCase(i int) *sem.Case {
 		c.Docs = append(c.Docs, docgen.Doc{V: full(k), Class: "required", Label: "root"},
 			docgen.Doc{V: append(full(-1), jsonx.KV{K: "nested", V: full(k)}), Class: "required", Label: "nested"},
 			docgen.Doc{V: append(full(-1), jsonx.KV{K: "list", V: []any{full(-1), full(k)}}), Class: "required", Label: "element"})
+	}
+	return c
+}
+
+// mixinBranchCase: allOf with a member that states no type and no properties but constrains the object all the
+// same - the "required-only mixin" {"required":["email"]} (also with a description, first or last, inline base or
+// $ref base, two mixins): the merged object requires the mixin's keys as well. The verdicts are stated (the model
+// abstains on type-less schemas with object keywords).
+func mixinBranchCase(i int) *sem.Case {
+	str := func() *sg.Schema { return &sg.Schema{Types: []string{"string"}} }
+	contact := &sg.Schema{Types: []string{"object"}, Props: []sg.Prop{{Name: "name", S: str()}, {Name: "email", S: str()}, {Name: "phone", S: str()}}, Required: []string{"name"}}
+	mixin := &sg.Schema{Required: []string{"email"}}
+	if i%2 == 1 {
+		mixin.Desc = "contacts that can be mailed"
+	}
+	var base *sg.Schema = contact
+	root := &sg.Schema{Types: []string{"object"}}
+	if (i/2)%2 == 1 {
+		root.Defs = []sg.Prop{{Name: "contact", S: contact}}
+		base = &sg.Schema{Ref: "#/$defs/contact", Target: contact}
+	}
+	members := []*sg.Schema{base, mixin}
+	need := []string{"name", "email"}
+	switch (i / 4) % 3 {
+	case 1:
+		members = []*sg.Schema{mixin, base}
+	case 2:
+		members = []*sg.Schema{base, mixin, {Required: []string{"phone"}}}
+		need = append(need, "phone")
+	}
+	root.Props = []sg.Prop{{Name: "billing", S: &sg.Schema{AllOf: members}},
+		{Name: "shipping", S: &sg.Schema{AllOf: []*sg.Schema{{Ref: "#/$defs/contact2", Target: contact}, {Types: []string{"object"}, Required: []string{"email"}}}}}}
+	root.Defs = append(root.Defs, sg.Prop{Name: "contact2", S: contact})
+	c := &sem.Case{Root: root, Sig: fmt.Sprintf("mixin-branch/%d", i%12), NoAuto: true}
+	keys := []string{"name", "email", "phone"}
+	for m := 0; m < 8; m++ {
+		o := jsonx.Obj{}
+		has := map[string]bool{}
+		for k, n := range keys {
+			if m&(1<<uint(k)) != 0 {
+				o = append(o, jsonx.KV{K: n, V: "v-" + n})
+				has[n] = true
+			}
+		}
+		st := "accept"
+		for _, n := range need {
+			if !has[n] {
+				st = "reject"
+			}
+		}
+		c.Docs = append(c.Docs, docgen.Doc{V: jsonx.Obj{{K: "billing", V: o}}, Class: "required", Label: "mixin", Stated: st})
+		st2 := "accept"
+		if !has["name"] || !has["email"] {
+			st2 = "reject"
+		}
+		c.Docs = append(c.Docs, docgen.Doc{V: jsonx.Obj{{K: "shipping", V: o}}, Class: "required", Label: "typed-control", Stated: st2})
 	}
 	return c
 }
